@@ -132,7 +132,10 @@ def step (_ : Unit) (line : String) : Unit × String :=
       (do
         let addr ← addr.toNat?
         let input ← parseHexTok input
-        pure (toString (precompileGas addr input))).getD "bad-op"
+        let gas := precompileGas addr input
+        -- the harness runs `Run` only when it is cheap; then it reports whether the length gate let it through
+        pure (toString gas ++ " " ++
+          (if gas > 3000000 then "skip" else if precompileLenOk addr input.size then "run" else "lenerr"))).getD "bad-op"
     | _ => "bad-op"
   ((), out)
 
